@@ -814,6 +814,11 @@ def gen_progspec(rng, spec, n_progs=(1, 5)):
                 hi = {"number": 2.0, "duration": 5.0}.get(fmt, 1.0)
                 base = _f(rng.uniform(0, hi * 0.5))
                 outs = {q: _f(rng.uniform(0, hi)) for q in progs}
+                if fmt != "duration":  # boundary values: a baseline / an outcome of exactly zero, an outcome at the top of the range
+                    if rng.random() < 0.2:
+                        base = 0.0
+                    if rng.random() < 0.15:
+                        outs[progs[0]] = 0.0 if rng.random() < 0.5 else hi
                 imp = None
                 if len(progs) >= 2 and rng.random() < 0.4:
                     k = _r(rng, (2, len(progs)))
